@@ -446,7 +446,7 @@ func (e *Exec) queryOn(st *DBState, sql string, params map[string]SQLVal) *rowsR
 					l = tBVCmp("bvslt", ka.I, kb.I)
 					eq = tEq(ka.I, kb.I)
 				} else {
-					l = mkUF("sqlStrLess", SBool, toBlob(ka.S), toBlob(kb.S))
+					l = e.strLess(ka.S, kb.S)
 					eq = tEq(ka.S, kb.S)
 				}
 				if ot.desc {
@@ -827,4 +827,41 @@ func (e *Exec) sqliteError(code int) Val {
 		}
 	}
 	return &IfaceV{T: tn.Type(), V: sv}
+}
+
+// strLess: the collation order on text keys, an uninterpreted strict total
+// order; irreflexivity, asymmetry, totality and transitivity are instantiated
+// over the finitely many terms that get compared on the path.
+func (e *Exec) strLess(a, b *Term) *Term {
+	a, b = toBlob(a), toBlob(b)
+	less := func(x, y *Term) *Term { return mkUF("sqlStrLess", SBool, x, y) }
+	terms, _ := e.world["orderTerms"].([]*Term)
+	for _, t := range []*Term{a, b} {
+		known := false
+		for _, o := range terms {
+			if sameTerm(o, t) {
+				known = true
+			}
+		}
+		if known {
+			continue
+		}
+		e.assume(tNot(less(t, t)))
+		for _, o := range terms {
+			e.assume(tNot(tAnd(less(t, o), less(o, t))))
+			e.assume(tOr(tEq(t, o), less(t, o), less(o, t)))
+			e.assume(tImplies(tEq(t, o), tAnd(tNot(less(t, o)), tNot(less(o, t)))))
+			for _, p := range terms {
+				if p == o {
+					continue
+				}
+				for _, tr := range [][3]*Term{{t, o, p}, {o, t, p}, {o, p, t}, {t, p, o}, {p, t, o}, {p, o, t}} {
+					e.assume(tImplies(tAnd(less(tr[0], tr[1]), less(tr[1], tr[2])), less(tr[0], tr[2])))
+				}
+			}
+		}
+		terms = append(terms, t)
+	}
+	e.world["orderTerms"] = terms
+	return less(a, b)
 }
